@@ -47,6 +47,11 @@ template<class F> static void run(int n)
 		int k = (int)(rnd() % 9);
 		std::printf("nextFloatN %x %x %llx %x = %llx\n", mb, w, (ull)p, k, (ull)bits(glm::nextFloat(x, k)));
 		std::printf("prevFloatN %x %x %llx %x = %llx\n", mb, w, (ull)p, k, (ull)bits(glm::prevFloat(x, k)));
+		// the older GLM_GTC_ulp spelling of the same functions (next_float / prev_float / float_distance): separate bodies in gtc/ulp.inl
+		std::printf("nextFloat/gtc %x %x %llx = %llx\n", mb, w, (ull)p, (ull)bits(glm::next_float(x))); std::printf("prevFloat/gtc %x %x %llx = %llx\n", mb, w, (ull)p, (ull)bits(glm::prev_float(x)));
+		std::printf("nextFloatN/gtc %x %x %llx %x = %llx\n", mb, w, (ull)p, k, (ull)bits(glm::next_float(x, k))); std::printf("prevFloatN/gtc %x %x %llx %x = %llx\n", mb, w, (ull)p, k, (ull)bits(glm::prev_float(x, k)));
+		{ glm::vec<3, F> g3((F)1, x, (F)2); std::printf("nextFloat/gtc_v3 %x %x %llx = %llx\n", mb, w, (ull)p, (ull)bits(glm::next_float(g3).y)); std::printf("prevFloat/gtc_v3 %x %x %llx = %llx\n", mb, w, (ull)p, (ull)bits(glm::prev_float(g3).y));
+		  std::printf("prevFloatN/gtc_v3 %x %x %llx %x = %llx\n", mb, w, (ull)p, k, (ull)bits(glm::prev_float(g3, k).y)); std::printf("nextFloatN/gtc_v3i %x %x %llx %x = %llx\n", mb, w, (ull)p, k, (ull)bits(glm::next_float(g3, glm::vec<3, int>(1, k, 2)).y)); }
 		glm::vec<2, F> v(x, (F)1); std::printf("nextFloat/v2 %x %x %llx = %llx\n", mb, w, (ull)p, (ull)bits(glm::nextFloat(v).x)); std::printf("prevFloatN/v2 %x %x %llx %x = %llx\n", mb, w, (ull)p, k, (ull)bits(glm::prevFloat(v, k).x));
 		// a second value: a few ranks away (possibly across zero), or independent
 		U q; int d = (int)(rnd() % 70);
@@ -57,7 +62,8 @@ template<class F> static void run(int n)
 		// floatDistance: only when the rank distance fits the result type
 		{ long double ox = (p & sbit) ? -(long double)(p & ~sbit) : (long double)(p & ~sbit), oy = (q & sbit) ? -(long double)(q & ~sbit) : (long double)(q & ~sbit);
 		  if (fabsl(ox - oy) < (long double)sbit) { std::printf("floatDistance %x %x %llx %llx = %llx\n", mb, w, (ull)p, (ull)q, (ull)(U)glm::floatDistance(x, y));
-		    glm::vec<2, F> a(x, (F)1), b(y, (F)1); std::printf("floatDistance/v2 %x %x %llx %llx = %llx\n", mb, w, (ull)p, (ull)q, (ull)(U)glm::floatDistance(a, b).x); } }
+		    glm::vec<2, F> a(x, (F)1), b(y, (F)1); std::printf("floatDistance/v2 %x %x %llx %llx = %llx\n", mb, w, (ull)p, (ull)q, (ull)(U)glm::floatDistance(a, b).x);
+		    std::printf("floatDistance/gtc %x %x %llx %llx = %llx\n", mb, w, (ull)p, (ull)q, (ull)(U)glm::float_distance(x, y)); std::printf("floatDistance/gtc_v2 %x %x %llx %llx = %llx\n", mb, w, (ull)p, (ull)q, (ull)(U)glm::float_distance(a, b).x); } }
 		int ulps = (int)(rnd() % 80) - 4; if (i % 5 == 0) ulps = d;
 		std::printf("equalULP_scalar %x %x %llx %llx %x = %x\n", mb, w, (ull)p, (ull)q, (unsigned)ulps, (unsigned)glm::equal(x, y, ulps));
 		std::printf("equalULP_scalar/ne %x %x %llx %llx %x = %x\n", mb, w, (ull)p, (ull)q, (unsigned)ulps, (unsigned)!glm::notEqual(x, y, ulps));
